@@ -710,3 +710,187 @@ func c11SpecEquals(c *core.Ctx) {
 	c.Check(badAt == nil && usesRaw, "R-C11-7", cons+"|compares the raw configuration, not the live object spec", pos(c, f.Body),
 		"Equals reads only the raw spec", map[bool]string{true: "Spec.Equals reads the typed object spec, which running objects mutate in place: an unchanged object never compares equal and is rebuilt (new generation, state reset) on every configuration event", false: "Spec.Equals does not compare the raw configuration"}[badAt != nil])
 }
+
+// ---------------------------------------------------------------------------------------
+// Third pass (round-3 seeded changes).
+
+// R-C01-10: the path matcher depends on the request path only through its three predicates.
+func c01PathValue(c *core.Ctx) {
+	c.Rule("R-C01-10", "path conditions: in MuxPath.matchPath the request path is used only in the equality test against the entry's exact path, the prefix test against the entry's pathPrefix and the entry's regexp MatchString (no further condition on the path, e.g. a literal-prefix pre-filter, which is unsound for unanchored expressions)")
+	f := fn(c, hs, "MuxPath", "matchPath")
+	if f == nil {
+		return
+	}
+	cons := fname(hs, "MuxPath", "matchPath")
+	pathF := structField(c, hs, "MuxPath", "path")
+	prefixF := structField(c, hs, "MuxPath", "pathPrefix")
+	reF := structField(c, hs, "MuxPath", "pathRE")
+	vals := map[types.Object]bool{}
+	ast.Inspect(f.Body, func(n ast.Node) bool {
+		if as, ok := n.(*ast.AssignStmt); ok && len(as.Lhs) == 1 && len(as.Rhs) == 1 {
+			if call, ok := as.Rhs[0].(*ast.CallExpr); ok && calleeIs(f, call, "(*pkg/protocols/httpprot.Request).Path") {
+				if id, ok := as.Lhs[0].(*ast.Ident); ok {
+					vals[f.Info.Defs[id]] = true
+				}
+			}
+		}
+		return true
+	})
+	if !c.RequireCount("R-C01-10", "request path variables in matchPath", len(vals), 1) {
+		return
+	}
+	isField := func(e ast.Expr, fld *types.Var) bool {
+		sel, ok := ast.Unparen(e).(*ast.SelectorExpr)
+		if !ok {
+			return false
+		}
+		s := f.Info.Selections[sel]
+		return s != nil && s.Obj() == fld
+	}
+	pm := parentMap(f.Body)
+	var badUse ast.Node
+	uses := 0
+	ast.Inspect(f.Body, func(n ast.Node) bool {
+		id, ok := n.(*ast.Ident)
+		if !ok || !vals[f.Info.Uses[id]] {
+			return true
+		}
+		uses++
+		p := pm[id]
+		for {
+			if pe, ok := p.(*ast.ParenExpr); ok {
+				p = pm[pe]
+				continue
+			}
+			break
+		}
+		okUse := false
+		switch x := p.(type) {
+		case *ast.BinaryExpr:
+			if x.Op == token.EQL || x.Op == token.NEQ {
+				other := x.X
+				if ast.Unparen(x.X) == ast.Expr(id) {
+					other = x.Y
+				}
+				okUse = isField(other, pathF)
+			}
+		case *ast.CallExpr:
+			full := calleeFull(f, x)
+			if full == "strings.HasPrefix" && len(x.Args) == 2 && ast.Unparen(x.Args[0]) == ast.Expr(id) && isField(x.Args[1], prefixF) {
+				okUse = true
+			}
+			if strings.HasSuffix(full, "regexp.Regexp).MatchString") {
+				if sel, ok := ast.Unparen(x.Fun).(*ast.SelectorExpr); ok && isField(sel.X, reF) {
+					okUse = true
+				}
+			}
+		}
+		if !okUse {
+			badUse = id
+		}
+		return true
+	})
+	c.Check(badUse == nil && uses > 0, "R-C01-10", cons+"|request path used only by the three matchers", pos(c, badUse),
+		sprintf("%d uses: == path, HasPrefix(pathPrefix), pathRE.MatchString", uses),
+		"the request path is subjected to a condition other than the entry's exact / prefix / regexp matcher: an entry whose configured matcher accepts the path can be skipped")
+}
+
+// R-C01-5 (extension): the backend lookup precedes everything that can fail on the body.
+func c01LookupFirst(c *core.Ctx) {
+	s := analyzeServe(c, "R-C01-5")
+	if s == nil {
+		return
+	}
+	f := s.f
+	okKey := f.VarKey(s.okVar)
+	var bad *flow.State
+	for _, st := range s.res.At[s.fetch] {
+		if !st.Is(okKey, flow.True) {
+			bad = st
+		}
+	}
+	c.Check(bad == nil && len(s.res.At[s.fetch]) > 0, "R-C01-5", s.cons+"|backend resolved before the body is read", pos(c, s.fetch),
+		"FetchPayload is reached only with a found backend", "the request body is fetched (413 / 400 possible) before the backend lookup has succeeded: a route whose backend does not exist answers 413/400 instead of 503 for some bodies", witness(bad)...)
+}
+
+// R-C05-3 (extension): an own-level filter is omitted only for an absent spec.
+func c05NewIPFilter(c *core.Ctx) {
+	f := fn(c, hs, "", "newIPFilter")
+	if f == nil {
+		return
+	}
+	cons := fname(hs, "", "newIPFilter")
+	if f.Type.Params == nil || len(f.Type.Params.List) != 1 || len(f.Type.Params.List[0].Names) != 1 {
+		c.Undecide("R-C05-3", cons+"|signature", pos(c, f.Body), "unexpected signature")
+		return
+	}
+	specNil := f.NilKey(f.Type.Params.List[0].Names[0])
+	res := analyze(c, f, flow.Config{NoHavoc: true})
+	if res == nil {
+		return
+	}
+	var bad *flow.State
+	n := 0
+	for _, ex := range res.Exits {
+		if ex.Kind != flow.ExitReturn || ex.Return == nil || len(ex.Return.Results) != 1 {
+			continue
+		}
+		n++
+		if f.Info.Types[ex.Return.Results[0]].IsNil() && !ex.State.Is(specNil, flow.True) {
+			bad = ex.State
+		}
+		if !f.Info.Types[ex.Return.Results[0]].IsNil() {
+			// must be ipfilter.New(spec)
+			call, ok := ast.Unparen(ex.Return.Results[0]).(*ast.CallExpr)
+			if !ok || !calleeIs(f, call, "pkg/util/ipfilter.New") {
+				bad = ex.State
+			}
+		}
+	}
+	c.Check(bad == nil && n >= 2, "R-C05-3", cons+"|no filter only for an absent spec", pos(c, f.Body), sprintf("%d exits: nil iff spec == nil, otherwise ipfilter.New(spec)", n),
+		"a configured IP filter spec yields no filter (e.g. a deny-all filter {blockByDefault: true} without entries is ignored on the uncached path while the cached path's chain still applies it)", witness(bad)...)
+}
+
+// R-C15-3 (extension): the resend queue is maintained only by publish and doResend.
+func c15QueueWriters(c *core.Ctx) {
+	pkg := c.Prog.Pkg(mq)
+	queueF := structField(c, mq, "Session", "pendingQueue")
+	if pkg == nil || queueF == nil {
+		return
+	}
+	allowed := map[string]bool{"publish": true, "doResend": true, "init": true, "newSessionFromYaml": true}
+	writers := 0
+	for _, file := range pkg.Syntax {
+		for _, d := range file.Decls {
+			fd, ok := d.(*ast.FuncDecl)
+			if !ok || fd.Body == nil {
+				continue
+			}
+			f := flow.NewFunc(pkg, fd)
+			var at ast.Node
+			ast.Inspect(fd.Body, func(n ast.Node) bool {
+				if as, ok := n.(*ast.AssignStmt); ok {
+					for _, l := range as.Lhs {
+						e := ast.Unparen(l)
+						if ix, ok := e.(*ast.IndexExpr); ok {
+							e = ast.Unparen(ix.X)
+						}
+						if sel, ok := e.(*ast.SelectorExpr); ok {
+							if s := f.Info.Selections[sel]; s != nil && s.Obj() == queueF {
+								at = as
+							}
+						}
+					}
+				}
+				return true
+			})
+			if at == nil {
+				continue
+			}
+			writers++
+			c.Check(allowed[fd.Name.Name], "R-C15-3", declName(pkg, fd)+"|resend queue written only by publish / doResend / constructors", pos(c, at),
+				"queue writer is the enqueueing or the resending function", "the resend queue is modified outside publish/doResend (e.g. trimmed when a PUBACK arrives): doResend retransmits only ids it finds in the queue, so ids dropped from it while still pending are never retransmitted although unacknowledged")
+		}
+	}
+	c.RequireCount("R-C15-3", "functions writing Session.pendingQueue", writers, 2)
+}
